@@ -629,7 +629,13 @@ func c17GenRows(r *rand.Rand, e *gen.Entry, n int, small bool) reflect.Value {
 
 func RunC17History(ctx *core.Ctx) {
 	ctx.SetRule(c17Rule)
-	ncases := ctx.Scale(10, 80)
+	// thorough (round 4, to fit the 10-minute budget of the whole property on 16 cores): 24 cases per
+	// type on the asm build and 12 on the purego build (was 80 on both); the instance histories are
+	// build-independent Go code except for the kernels, which the crossbuild sub-check compares
+	ncases := ctx.Scale(10, 24)
+	if ctx.Thorough() && ctx.Variant == "purego" {
+		ncases = 12
+	}
 	var wg sync.WaitGroup
 	sem := make(chan struct{}, 16)
 	for _, e := range gen.WithGeo() {
@@ -960,7 +966,7 @@ func (c *c17XCase) detail(ctx *core.Ctx) map[string]any {
 }
 
 func c17XCases(ctx *core.Ctx) []*c17XCase {
-	ncases := ctx.Scale(8, 40)
+	ncases := ctx.Scale(8, 16) // thorough was 40 (round 4 budget)
 	var out []*c17XCase
 	for _, e := range gen.WithGeo() {
 		r := ctx.Rand("c17x/" + e.Name)
@@ -1011,7 +1017,7 @@ func c17RunLens(r *rand.Rand) int {
 
 func c17EncCases(ctx *core.Ctx) []*c17EncCase {
 	r := ctx.Rand("c17x/encodings")
-	n := ctx.Scale(30000, 400000)
+	n := ctx.Scale(30000, 120000) // thorough was 400000 (round 4 budget)
 	out := make([]*c17EncCase, 0, n)
 	for i := 0; i < n; i++ {
 		c := &c17EncCase{}
